@@ -116,7 +116,24 @@ def gen_cases(rng, n):
         # the script prefers the values the directives mention (and a near miss)
         vals = [d["v"] for d in dirs if d["v"]] + [rng.choice(VTOK)]
         vals += [NEAR[v] for v in list(vals) if v in NEAR and NEAR[v] in VTOK]
-        cases.append({"id": i, "s": s, "dirs": dirs, "tv": tv, "x": rng.randint(0, 5), "script": rand_script(rng, vals)})
+        script = rand_script(rng, vals)
+        if i % 9 == 4:
+            # targeted shape: a value directive of a LOW level selecting a MORE verbose span - the span exists only if the filter's
+            # published hint says TRACE (field values are not known before recording), whichever way the filter was built
+            v = rng.choice(VTOK)
+            dl = rng.choice([1, 2, 3, 4])
+            dirs = [{"t": rng.choice(["", "a"]), "s": "s1", "f": "k", "v": v, "l": dl}]
+            if rng.random() < 0.5:
+                dirs.insert(rng.randint(0, 1), {"t": rng.choice(["", "b"]), "s": "", "f": "", "v": "", "l": rng.randint(0, dl)})
+            segs = [render_dir(d, rng) for d in dirs]
+            s, tv = ",".join(segs), True
+            late = rng.random() < 0.5
+            script = [{"op": "all"},
+                      {"op": "span", "h": 1, "lvl": rng.randint(dl + 1, 5), "tgt": "a", "name": "s1", "k": "" if late else v, "kt": "" if late else recorded(rng, v)}]
+            if late:
+                script.append({"op": "record", "h": 1, "k": v, "kt": recorded(rng, v)})
+            script += [{"op": "enter", "h": 1}, {"op": "all"}, {"op": "exit", "h": 1}, {"op": "all"}, {"op": "close", "h": 1}]
+        cases.append({"id": i, "s": s, "dirs": dirs, "tv": tv, "x": rng.randint(0, 5), "script": script})
     return cases
 
 
